@@ -151,7 +151,7 @@ def run(eng, p):
     if len(xvars) != len(var_of):
         eng.fail("unexpected placement variables in the model", detail=str(xvars))
         return
-    regs = region(eng, "C24-oilp-cgdp-objective-drops-beta", p["method"] == "oilp_cgdp" and bool(pinned))
+    regs = []
     # second listed finding: two computations joined by several links (several constraints over the same pair)
     pair_links = {}
     for l in cg.links:
